@@ -217,3 +217,134 @@ can_be_yielded = Contract(
 )
 can_be_yielded.ensures['none_chromosome_never_ejects'] = 'implies(chromosome is None, result == False)'
 UNITS.append(can_be_yielded)
+
+
+# ------------------------------------------------------------------------------ Molecule._add_fragment: the span invariant
+# can_be_yielded reasons with the molecule span; it is right only if the span is the hull of the member fragments.
+def addf_setup(eng):
+    eng.ghost.clear()
+    eng.ghost['dup'] = []
+    eng.spec_env['GHOST'] = eng.ghost
+    from pyvc import stubs as S
+    S.STUBS['SpanFrag'] = {'methods': {
+        'get_span': lambda e, o: o.attrs['span'],
+        'set_duplicate': lambda e, o, v: e.ghost['dup'].append(v)}, 'props': {}, 'setters': {}}
+    eng.loader.call_hooks['singlecellmultiomics.molecule.molecule.Molecule.update_umi'] = lambda e, f, a, k, n: None
+
+
+def span_fragment(eng, name):
+    span = (named(STR, 'f.chrom'), named(INT, 'f.start'), named(INT, 'f.end'))
+    eng.assume(span[1].z <= span[2].z)
+    o = Obj('SpanFrag', {'span': span, 'match_hash': named(INT, 'f.match_hash'), 'strand': named(BOOL, 'f.strand'),
+                         'umi': named(STR, 'f.umi'), 'umi_hamming_distance': named(INT, 'f.umi_hamming_distance')})
+    o.vc_immutable = True
+    return o
+
+
+def span_molecule(n_frags, capped):
+    def mk(eng, name):
+        from pyvc.symdict import SymDict
+        frags = [Obj('SpanFrag', {'span': None}) for _ in range(n_frags)]
+        if n_frags:
+            s0, e0 = named(INT, 'mol.spanStart'), named(INT, 'mol.spanEnd')
+            eng.assume(s0.z <= e0.z)
+            chrom = named(STR, 'mol.chromosome')
+        else:
+            s0 = e0 = chrom = None
+        cap = None
+        if capped:
+            cap = named(INT, 'mol.max_associated_fragments')
+            eng.assume(cap.z >= 1)
+        eng.spec_env['S0'], eng.spec_env['E0'], eng.spec_env['FR0'] = s0, e0, list(frags)
+        ov = named(INT, 'mol.overflow_fragments')
+        eng.spec_env['OV0'] = ov
+        return Obj('Molecule', {'max_associated_fragments': cap, 'fragments': frags, 'overflow_fragments': ov,
+                                'match_hash': None, 'spanStart': s0, 'spanEnd': e0, 'chromosome': chrom,
+                                'span': (chrom, s0, e0), 'strand': None, 'umi_counter': SymDict([(STR,)], INT, name='umis', default=0),
+                                'umi_hamming_distance': None, 'saved_base_obs': 'stale'},
+                   info=eng.loader.classref(FM, 'Molecule'))
+    return mk
+
+
+OVER = '(self.max_associated_fragments is not None and len(FR0) >= self.max_associated_fragments)'
+add_span = Contract(
+    PROP, FM + '::Molecule._add_fragment', name='Molecule._add_fragment[span invariant]',
+    params={'self': span_molecule(0, False), 'fragment': span_fragment},
+    cases=[{}, {'self': span_molecule(1, False)}, {'self': span_molecule(2, True)}, {'self': span_molecule(1, True)},
+           {'self': span_molecule(3, False)}],
+    setup=addf_setup,
+    ensures={
+        'fragment_becomes_the_last_member': 'self.fragments == FR0 + [fragment]',
+        'span_is_the_hull_of_old_span_and_fragment':
+            'self.spanStart == (fragment.span[1] if S0 is None else min(S0, fragment.span[1])) and '
+            'self.spanEnd == (fragment.span[2] if E0 is None else max(E0, fragment.span[2]))',
+        'span_covers_the_fragment': 'self.spanStart <= fragment.span[1] and fragment.span[2] <= self.spanEnd',
+        'span_tuple_agrees': 'self.span == (fragment.span[0], self.spanStart, self.spanEnd) and self.chromosome == fragment.span[0]',
+        'bucket_hash_and_cached_consensus': 'self.match_hash == fragment.match_hash and self.saved_base_obs is None',
+    },
+    raises={'OverflowError': OVER},
+    assumptions=['fragment.get_span() returns (contig, start, end) with start <= end; update_umi through a stub (consensus UMI)'],
+)
+UNITS.append(add_span)
+
+
+def add_span_replay(inputs, clause):
+    """the real Molecule._add_fragment on a Molecule shell (attributes of the counter-model) and a duck-typed fragment"""
+    import collections
+    from pyvc.contract import import_real
+    Mol = import_real(FM, 'Molecule')
+
+    class F:
+        def __init__(self, a):
+            self.__dict__.update({k: v for k, v in a.items() if k != 'span'})
+            self._span = tuple(a['span']) if a.get('span') is not None else None
+
+        def get_span(self):
+            return self._span
+
+        def set_duplicate(self, v):
+            self.dup = v
+    sa, fa = inputs['self']['attrs'], inputs['fragment']['attrs']
+    m = Mol.__new__(Mol)
+    for k, v in sa.items():
+        setattr(m, k, v)
+    m.fragments = [F({'span': None}) for _ in sa['fragments']]
+    m.umi_counter = collections.Counter()
+    m.span = tuple(sa['span']) if sa.get('span') is not None else None
+    m.umi = None
+    f = F(fa)
+    s0, e0, n0 = sa['spanStart'], sa['spanEnd'], len(m.fragments)
+    try:
+        m._add_fragment(f)
+    except OverflowError:
+        over = sa['max_associated_fragments'] is not None and n0 >= sa['max_associated_fragments']
+        obs = {'outcome': 'raise', 'exception': 'OverflowError'}
+        return {'status': 'not-reproduced' if over else 'confirmed', 'observed': obs,
+                'failed': [] if over else [{'clause': 'raises.only'}]}
+    fs, fe = f._span[1], f._span[2]
+    want = (fs if s0 is None else min(s0, fs), fe if e0 is None else max(e0, fe))
+    obs = {'outcome': 'return', 'value': {'spanStart': m.spanStart, 'spanEnd': m.spanEnd, 'span': list(m.span),
+                                          'n_fragments': len(m.fragments)}}
+    failed = []
+    if (m.spanStart, m.spanEnd) != want:
+        failed.append({'clause': 'span_is_the_hull_of_old_span_and_fragment', 'expected': list(want)})
+    if not (m.spanStart <= fs and fe <= m.spanEnd):
+        failed.append({'clause': 'span_covers_the_fragment'})
+    if tuple(m.span) != (f._span[0], m.spanStart, m.spanEnd) or m.chromosome != f._span[0]:
+        failed.append({'clause': 'span_tuple_agrees'})
+    if len(m.fragments) != n0 + 1 or m.fragments[-1] is not f:
+        failed.append({'clause': 'fragment_becomes_the_last_member'})
+    if m.saved_base_obs is not None or m.match_hash != f.match_hash:
+        failed.append({'clause': 'bucket_hash_and_cached_consensus'})
+    return {'status': 'confirmed' if failed else 'not-reproduced', 'observed': obs, 'failed': failed}
+
+
+add_span.replay = add_span_replay
+
+
+def extra_units():
+    """every fragment is emitted exactly once / both pooling methods give the classes of identical keys: the per-fragment
+    assignment block of MoleculeIterator.__iter__ (C06's units, re-verified under this property)"""
+    from contracts import c06
+    from pyvc.units import share
+    return [share(u, PROP) for u in c06.UNITS if getattr(u, 'name', '').startswith('MoleculeIterator.assign_fragment')]
